@@ -183,6 +183,10 @@ def case_def(case_id):
         C4 = np.array([1 + 0.5j, -0.5j, 2, 0.25 - 0.25j])
         A4 = np.array([[1 + 0.5j, -0.5j, 2, 0], [0.25, 1 - 1j, -1.5 + 0.5j, 1j], [-2j, 0.5, 0.75 + 0.25j, 1], [0, 1, -1j, 0.5]])
         c.update(specs=[Spec(['x'], ['y'], lambda x: [C4 * x * x + A4 @ x + x * np.roll(x, -1)], lambda x: [[np.diag(2 * C4 * x) + A4 + _cyc(4)[1](x)[0][0] - np.diag(x)]])], sources={'x': x})
+    elif base == 'slice_cplx':
+        c = case_def('cplx_holo')
+        sel = {'in': ([('x', slice(1, 4))], None), 'fancy': ([('x', [3, 0])], None), 'out': (None, [('y', slice(0, 2))])}[var]
+        c.update(fromsig=sel[0], tosig=sel[1])
     elif base == 'cplx_nonholo':
         x = np.array([0.75 - 1j, 1.5 + 2j, 3 + 0j])
 
